@@ -2027,6 +2027,7 @@ pub fn position_command_sessions(rep: &Reporter, tier: Tier, what: &str, n_lines
     let per_root = if tier == Tier::Quick { 10 } else { 40 };
     let mut jobs_a: Vec<(String, Pos, String, Pos)> = Vec::new(); // (command A, root A, command B, root B)
     let mut jobs_b: Vec<(String, Pos, String)> = Vec::new(); // (command A, root A, rejected command)
+    let mut jobs_c: Vec<(String, String, String, Pos)> = Vec::new(); // (accepted, rejected extension, accepted extension of that, its root)
     for f in roots {
         let base = Pos::from_fen(f).unwrap();
         let legal = base.legal();
@@ -2068,6 +2069,19 @@ pub fn position_command_sessions(rep: &Reporter, tier: Tier, what: &str, n_lines
                     if i != j {
                         jobs_a.push((position_line(&base, &line[..i]), roots_along[i].clone(), position_line(&base, &line[..j]), roots_along[j].clone()));
                     }
+                }
+            }
+            // triples: an accepted list, a REJECTED extension of it (one or two legal moves, then an
+            // impossible one), then the legal list that a corrected command would send (the game's own
+            // continuation, one ply beyond the legal part of the rejected list)
+            for i in 0..line.len() {
+                for j in 1..=2usize {
+                    if i + j + 1 > line.len() {
+                        continue;
+                    }
+                    let mut rejected: Vec<String> = line[..i + j].to_vec();
+                    rejected.push("a1a1".to_string());
+                    jobs_c.push((position_line(&base, &line[..i]), position_line(&base, &rejected), position_line(&base, &line[..i + j + 1]), roots_along[i + j + 1].clone()));
                 }
             }
         }
@@ -2160,7 +2174,63 @@ pub fn position_command_sessions(rep: &Reporter, tier: Tier, what: &str, n_lines
             }
         });
     }
+    par_map_fine(&jobs_c, |(ca, rejected, cc, rc)| {
+        for go_between in [false, true] {
+            let mut s = Session::new(false);
+            s.line(ca);
+            if go_between {
+                let _ = run_go(&mut s, "go depth 1", Plan::virtual_rate(1_000), &none);
+            }
+            s.line(rejected);
+            s.line(cc);
+            let spec = GoSpec { line: "go depth 2".to_string(), needs_stop: false, searchmoves: vec![] };
+            let out = run_go(&mut s, &spec.line, Plan::virtual_rate(1_000), &none);
+            let (late, _) = s.quit();
+            let late_best = late.iter().filter(|e| matches!(e, Ev::Best(..))).count();
+            judged.fetch_add(1, Ordering::Relaxed);
+            match what {
+                "C16" => c16_judge_search(rep, rc, &out.obs.lines, &json!({"session": [ca, rejected, cc, "go depth 2"], "judged": "the last search"}), n_lines),
+                "C13" => {
+                    // the accepted list is applied in full: the answer is the one a fresh engine gives
+                    let (_, fresh) = dry_run(cc, "go depth 2");
+                    if out.n_best != 1 || out.best != fresh.best || out.score != fresh.score {
+                        rep.report("position_command:accepted_list_after_a_rejected_extension_not_applied".to_string(), json!({"kind": "rejected_then_accepted_position", "accepted": ca, "rejected": rejected, "accepted_after_it": cc, "go_between": go_between, "detail": {"bestmove": out.best, "score": format!("{:?}", out.score), "fresh_engine_bestmove": fresh.best, "fresh_engine_score": format!("{:?}", fresh.score)}}));
+                    }
+                }
+                _ => {
+                    let prefix: Vec<&str> = if go_between { vec![ca.as_str(), "go depth 1", rejected.as_str()] } else { vec![ca.as_str(), rejected.as_str()] };
+                    c07_judge(rep, rc, "after_rejected_extension", cc, &spec, "1us/node", &out, late_best, json!({"prefix": prefix, "rejected_extension_before": true}))
+                }
+            }
+        }
+    });
     judged.load(Ordering::Relaxed)
+}
+
+/// replay of one accepted / rejected extension / accepted triple (C13)
+pub fn replay_position_triple(case: &Value) -> i32 {
+    let started = Instant::now();
+    let rep = Reporter::new("C13");
+    let (ca, rejected, cc) = (case["accepted"].as_str().unwrap_or(""), case["rejected"].as_str().unwrap_or(""), case["accepted_after_it"].as_str().unwrap_or(""));
+    let go_between = case["go_between"].as_bool().unwrap_or(false);
+    let mut s = Session::new(false);
+    s.line(ca);
+    if go_between {
+        let _ = run_go(&mut s, "go depth 1", Plan::virtual_rate(1_000), &none);
+    }
+    s.line(rejected);
+    s.line(cc);
+    let out = run_go(&mut s, "go depth 2", Plan::virtual_rate(1_000), &none);
+    s.quit();
+    let (_, fresh) = dry_run(cc, "go depth 2");
+    println!("{}\n{}   (rejected)\n{}\ngo depth 2 -> {:?} {:?}; a fresh engine given only the last command: {:?} {:?}", ca, rejected, cc, out.best, out.score, fresh.best, fresh.score);
+    if out.n_best != 1 || out.best != fresh.best || out.score != fresh.score {
+        rep.report("position_command:accepted_list_after_a_rejected_extension_not_applied".to_string(), json!({"kind": "rejected_then_accepted_position", "accepted": ca, "rejected": rejected, "accepted_after_it": cc, "go_between": go_between}));
+    }
+    println!("replay: {} violating case(s) reproduced", rep.violation_count());
+    let mut cov = Coverage::new();
+    cov.states = 1;
+    finish(&rep, Tier::Quick, cov, started)
 }
 
 pub fn run_c16(tier: Tier) -> i32 {
